@@ -67,3 +67,22 @@ def gen_combined(rng, ncontracts=2, **kw):
     if rng.random() < 0.4:
         doc["contracts"]["src/iface.sol:I"] = {"asm": None}
     return doc
+
+
+def inject_unanalysable(doc, rng, single=False):
+    """Insert, in the middle of the runtime code of one contract, a block the tool's parser accepts but whose analysis
+    raises on this tree (MCOPY): the block has to come out unchanged, wherever the document goes afterwards.
+    Returns the number of blocks inserted."""
+    asms = [doc] if single else [v.get("asm") for v in doc.get("contracts", {}).values() if v and v.get("asm")]
+    asms = [a for a in asms if a and a.get(".data", {}).get("0", {}).get(".code")]
+    if not asms:
+        return 0
+    code = rng.choice(asms)[".data"]["0"][".code"]
+    items = [("PUSH", "20"), ("PUSH", "0"), ("PUSH", "40"), ("MCOPY", None), ("PUSH", "1"), ("PUSH", "2"), ("ADD", None),
+             ("PUSH [tag]", str(rng.randrange(1, 9))), ("JUMPI", None)]
+    new = [entry(("tag", str(90 + rng.randrange(9))), None, 900), entry(("JUMPDEST", None), None, 900)] + [entry(it, None, 901 + k) for k, it in enumerate(items)]
+    # before the last block of the section (a tag starts a block)
+    tags = [k for k, e in enumerate(code) if e.get("name") == "tag"]
+    at = tags[-1] if tags else len(code)
+    code[at:at] = new
+    return 1
